@@ -4,6 +4,7 @@ import (
 	"encoding/json"
 	"fmt"
 	"os"
+	"testing"
 )
 
 // replayFile re-executes a replay artefact written by vcheck and reports
@@ -22,9 +23,36 @@ type replaySpec struct {
 	FailedAt int    `json:"failed_at"`
 	CrashAt  int    `json:"crash_before_mutation"`
 	Torn     int    `json:"torn_bytes"`
+	Choices  []int  `json:"choices"`
 }
 
-func runReplay(c *Collector, path string) {
+// concScenariosOf lists the engine-A scenarios of a property (both tiers).
+func concScenariosOf(prop string) []*ConcScenario {
+	var scs []*ConcScenario
+	for _, tier := range []string{"quick", "thorough"} {
+		switch prop {
+		case "C03":
+			scs = append(scs, c03ConcScenarios(tier)...)
+		case "C05":
+			scs = append(scs, c05Scenarios(tier)...)
+		case "C06":
+			scs = append(scs, c06Scenarios(tier)...)
+		case "C07":
+			scs = append(scs, c07ConcScenarios(tier)...)
+		case "C12":
+			scs = append(scs, c12Scenarios(tier)...)
+		case "C13":
+			scs = append(scs, c13ConcScenarios(tier)...)
+		case "C14":
+			scs = append(scs, c14ConcScenarios(tier)...)
+		case "C17":
+			scs = append(scs, c17Scenarios(tier)...)
+		}
+	}
+	return scs
+}
+
+func runReplay(t *testing.T, c *Collector, path string) {
 	data, err := os.ReadFile(path)
 	if err != nil {
 		c.res.InfraError = err.Error()
@@ -74,8 +102,59 @@ func runReplay(c *Collector, path string) {
 		}
 		sc.only = &spec
 		sc.crashHistory(spec.Ops, c, map[[40]byte]struct{}{})
+	case "A":
+		var sc *ConcScenario
+		for _, x := range concScenariosOf(prop) {
+			if x.Name == spec.Scenario {
+				sc = x
+				break
+			}
+		}
+		if sc == nil {
+			c.res.InfraError = "no scenario for replay"
+			return
+		}
+		verbose = true
+		e := &Explorer{t: t, c: c, sc: sc, outcomes: map[string]int64{}, nshards: 1}
+		x := e.runOne(spec.Choices, nil)
+		if x == nil {
+			c.res.InfraError = "execution returned no result"
+			return
+		}
+		c.res.Evaluations++
+		fmt.Printf("schedule:\n")
+		for _, st := range x.trace.steps {
+			fmt.Printf("  %s\n", st)
+		}
+		fmt.Printf("outcome: %s\n", x.outcome)
+		if x.viol == nil {
+			for _, p := range x.pending {
+				if !checkLinearizable(p.init, p.recs, p.imm) {
+					x.viol = p.onFail
+					break
+				}
+			}
+		}
+		if x.viol == nil && x.crash != nil {
+			if doc.Violation.Oracle == "crash" {
+				e.crashOnly = &spec
+			}
+			if vs := e.crashCheck(x); len(vs) > 0 {
+				x.viol = vs[0]
+			}
+		}
+		if x.viol != nil {
+			v := x.viol
+			v.Property = prop
+			if v.Config == "" {
+				v.Config = sc.Cfg.String()
+			}
+			v.History = sc.Desc
+			v.Replay = doc.Violation.Replay
+			c.violation(v, 0)
+		}
 	default:
-		c.res.InfraError = fmt.Sprintf("replay of engine %q not supported here", spec.Engine)
+		c.res.InfraError = fmt.Sprintf("replay of engine %q not supported here (engine R violations are race-detector reports; re-run the check)", spec.Engine)
 	}
 }
 
